@@ -167,7 +167,7 @@ def run():
 
 INLINE_ALPHABETS = {'I1': ['a', ' ', '*', '`', '\\'], 'I2': ['a', '*', '`', '<', '>', '/'], 'I3': ['a', ':', '<', '>', '*', '`'],
                     'I4': ['a', ' ', '`', '<', '>', '\\', '_'],
-                    'I5': ['a', ':', '<', '>', '\\'],
+                    'I5': ['a', ':', '<', '>', '\\'], 'I6': ['<', '!', '-', '>', 'a'], 'I7': ['<', '?', '>', 'a', '!'],
                     # entity and numeric character references
                     'E1': ['&', '#', '3', '5', ';', 'a', 'x'], 'E2': ['&', 'a', 'm', 'p', ';', 'l', 't'], 'E3': ['&', '#', '4', '2', ';', '*'],
                     'E4': ['&', 'l', 't', ';', '`', '\\', 'a']}
@@ -216,7 +216,7 @@ def inline_scan_layer(ck, m, quick):
                 ck.violation('inline scan: input=%r expected=%r observed=%r' % (text, rec['html'], got),
                              {'input': text, 'expected': rec['html'], 'observed': got, 'classes': sorted(rec['tags']),
                               'clause': 'Inline.scan' if not got.startswith('EXCEPTION') else 'Emphasis.failure'})
-    if n < (120000 if quick else 400000):
+    if n < (300000 if quick else 900000):
         raise core.MachineryError('InlineScan.tla exported only %d strings' % n)
     ck.extra['inline_scan_strings'] = n
     ck.extra['inline_scan_unsettled_not_judged'] = skipped
